@@ -52,6 +52,8 @@ var registry = []*HarnessSpec{
 	{Prop: "C18", Name: "zzH09b", Pkg: pkgCorerad, Tier: "quick", NoNative: true, Bounds: "the receive path shared by monitor and advertiser: the sender address handed to the callback has its zone stripped for any IPv6 source"},
 	{Prop: "C10", Name: "zzH10adv", Pkg: pkgCorerad, Tier: "quick", MonoTime: true, NoNative: true, Bounds: "Advertiser.Run with all its real goroutines; one fault: opaque receive error / link-state change / failing scheduled transmission; then cancellation"},
 	{Prop: "C10", Name: "zzH10e", Pkg: pkgCorerad, Tier: "quick", NoNative: true, Bounds: "Listen with its real goroutines: non-timeout net.Error, opaque read error, or failing callback"},
+	{Prop: "C06", Name: "zzH06burst", Pkg: pkgCorerad, Tier: "quick", MonoTime: true, NoNative: true, Bounds: "two requests queued together before the scheduler runs (a unicast source and all-nodes, either order) at one instant; each task then runs at its due time"},
+	{Prop: "C07", Name: "zzH06burst", Pkg: pkgCorerad, Tier: "quick", MonoTime: true, NoNative: true, Bounds: "two requests queued together (a unicast source and all-nodes, either order): one unicast RA to the source within 500 ms, one multicast RA"},
 	{Prop: "C06", Name: "zzH06", Pkg: pkgCorerad, Tier: "quick", MonoTime: true, NoNative: true, Params: map[string]int{"events": 2, "events@thorough": 3}, Bounds: "2 (3) requests, each all-nodes or an arbitrary unicast source, at arbitrary non-decreasing monotonic instants (ns); ideal timers (a task runs at registration + delay)"},
 	{Prop: "C10", Name: "zzH10s", Pkg: pkgCorerad, Tier: "quick", MonoTime: true, NoNative: true, Params: map[string]int{"pending": 2}, Bounds: "2 pending RAs (multicast or unicast) whose transmissions all fail"},
 	{Prop: "C03", Name: "zzH03header", Pkg: pkgConfig, Tier: "quick", Bounds: "all header keys symbolic (every shape of default_lifetime; any value of the timers, hop limit, flags, preference) as accepted by the real parser"},
@@ -78,7 +80,7 @@ var registry = []*HarnessSpec{
 	{Prop: "C02", Name: "zzH02pref64", Pkg: pkgConfig, Tier: "quick", Bounds: "one pref64 stanza: prefix absent / empty / unparsable / any IPv4 or IPv6 prefix of any length"},
 	{Prop: "C02", Name: "zzH02dnssl", Pkg: pkgConfig, Tier: "quick", Bounds: "one dnssl stanza: lifetime of every shape, 0..3 names from three tokens"},
 	{Prop: "C19", Name: "zzH19a", Pkg: pkgNetstate, Tier: "quick", Params: map[string]int{"subs": 2, "changes": 3, "subs@thorough": 3, "changes@thorough": 3}, Bounds: "2 (3) subscribers with any non-empty 7-bit mask on one of two interfaces; 3 changes, each any non-zero 7-bit value, on either interface"},
-	{Prop: "C19", Name: "zzH19b", Pkg: pkgNetstate, Tier: "quick", Bounds: "10 matching undrained events"},
+	{Prop: "C19", Name: "zzH19b", Pkg: pkgNetstate, Tier: "quick", Bounds: "10 matching events; one subscriber never drains, a second one with the same interface and mask drains after every notification"},
 	{Prop: "C19", Name: "zzH19c", Pkg: pkgNetstate, Tier: "quick", Params: map[string]int{"subs": 2, "subs@thorough": 3}, Bounds: "2 (3) subscribers, 0..2 notifications before watching ends"},
 	{Prop: "C19", Name: "zzH19d", Pkg: pkgNetstate, Tier: "quick", Explore: true, Sched: 5000, Race: true, Bounds: "one early and one late subscriber; 2 notifications; the late Subscribe released at any of 4 points and scheduled at any later scheduling point (all schedules: the budget of 5000 is not reached); lock discipline on Watcher.m decided on every path; native validation under the Go race detector"},
 	{Prop: "C19", Name: "zzH19e", Pkg: pkgNetstate, Tier: "quick", Bounds: "every 8-bit operational state"},
@@ -93,7 +95,7 @@ var registry = []*HarnessSpec{
 	{Prop: "C04", Name: "zzH08a", Pkg: pkgCorerad, Tier: "quick", Bounds: "final RA path"},
 	{Prop: "C04", Name: "zzH04seq", Pkg: pkgCorerad, Tier: "quick", Bounds: "two consecutive sends with independently symbolic forwarding reads"},
 	{Prop: "C08", Name: "zzH08a", Pkg: pkgCorerad, Tier: "quick", Bounds: "one shutdown call: terminate/reload, unicast_only, forwarding, write failure symbolic"},
-	{Prop: "C09", Name: "zzH09a", Pkg: pkgCorerad, Tier: "quick", Params: map[string]int{"k": 8, "k@thorough": 32}, Bounds: "0..k-1 consecutive messages with any hop limit != 255 followed by a valid one (k=8, thorough 32)"},
+	{Prop: "C09", Name: "zzH09a", Pkg: pkgCorerad, Tier: "quick", Params: map[string]int{"k": 20, "k@thorough": 48}, Bounds: "0..k-1 consecutive messages with any hop limit != 255 followed by a valid one (k=20, thorough 48)"},
 	{Prop: "C10", Name: "zzH10c", Pkg: pkgCorerad, Tier: "quick", Bounds: "0..6 read timeouts followed by a message, a non-timeout net.Error or another error"},
 	{Prop: "C18", Name: "zzH18", Pkg: pkgCorerad, Tier: "quick", Params: map[string]int{"prefixes": 2, "prefixes@thorough": 4}, Bounds: "one message: RS/NS/NA or an RA with symbolic header, 0..2 (thorough 0..4) prefix options (all fields symbolic, whole-second lifetimes incl. 0 and 2^32-1 s) and an unknown option; receipt instant any wall-clock ns value; sender an opaque string"},
 	{Prop: "C18", Name: "zzH18label", Pkg: pkgCorerad, Tier: "quick", Bounds: "cidrStr / prefixStr / routeStr on 6 concrete prefixes, boolFloat"},
